@@ -193,6 +193,38 @@ long w_casloop_p64(_Atomic(bytep) *p, long n, unsigned long *log, long cap) {
   return k;
 }
 
+// lock-free algorithms built from the primitives; the protected data is plain (non-atomic) memory, so a broken primitive shows as a lost or duplicated item
+static atomic_flag spin = ATOMIC_FLAG_INIT;
+void w_flaglock_u64(long *counter, long n, unsigned long *log) {
+  for (long i = 0; i < n; i++) {
+    while (atomic_flag_test_and_set(&spin)) ;
+    long v = *counter; log[i] = v; *counter = v + 1;
+    atomic_flag_clear(&spin);
+  }
+}
+static _Atomic unsigned next_ticket, now_serving;
+void w_ticketlock_u64(long *counter, long n, unsigned long *log) {
+  for (long i = 0; i < n; i++) {
+    unsigned my = atomic_fetch_add(&next_ticket, 1);
+    while (atomic_load(&now_serving) != my) ;
+    long v = *counter; log[i] = v; *counter = v + 1;
+    now_serving++;
+  }
+}
+// Treiber stack over node numbers 1..; a node is pushed once and never reused, so there is no ABA case: every pushed node must come out exactly once
+static long *treiber_next;
+void set_treiber_next(long *a) { treiber_next = a; }
+void w_treiber_u64(_Atomic long *head, long n, unsigned long *log, unsigned long tid) {
+  for (long i = 0; i < n; i++) {
+    long k = 1 + tid * n + i;
+    long old = atomic_load(head);
+    do { treiber_next[k] = old; } while (!atomic_compare_exchange_weak(head, &old, k));
+    long top = atomic_load(head), nx;
+    do { if (top == 0) break; nx = treiber_next[top]; } while (!atomic_compare_exchange_strong(head, &top, nx));
+    log[i] = top;
+  }
+}
+
 // the object itself in static storage, defined by the compiler under test
 _Atomic unsigned char s_u8;
 _Atomic unsigned short s_u16;
